@@ -186,8 +186,21 @@ func init() {
 		"math.Abs":          intrAbs,
 		"math.IsNaN":        intrIsNaN,
 		"math.IsInf":        intrIsInf,
-		"math.Float64bits":  func(fr *frame, a []value) value { return math.Float64bits(a[0].(float64)) },
-		"math.Float64frombits": func(fr *frame, a []value) value { return math.Float64frombits(a[0].(uint64)) },
+		"math.Float64bits": func(fr *frame, a []value) value {
+			if t, ok := a[0].(*Term); ok {
+				// the bit pattern b with to_fp(b) = x (any NaN pattern for NaN)
+				b := fr.p.freshVar("f64bits", sortBV(64))
+				fr.p.sol.assert(mkOp("=", sortBool, mkOp("(_ to_fp 11 53)", sortFP, b), t))
+				return b
+			}
+			return math.Float64bits(a[0].(float64))
+		},
+		"math.Float64frombits": func(fr *frame, a []value) value {
+			if t, ok := a[0].(*Term); ok {
+				return mkOp("(_ to_fp 11 53)", sortFP, t)
+			}
+			return math.Float64frombits(a[0].(uint64))
+		},
 		"math.Inf":          func(fr *frame, a []value) value { return math.Inf(int(asInt64(a[0]))) },
 		"math.NaN":          func(fr *frame, a []value) value { return math.NaN() },
 
